@@ -28,12 +28,15 @@ func (node *tagMacroNode) Execute(ctx *ExecutionContext, writer TemplateWriter) 
 // call executes the macro. Every way to get here (locally defined and imported
 // macros) is subject to the recursion limit.
 func (node *tagMacroNode) call(ctx *ExecutionContext, args ...*Value) (*Value, error) {
-	ctx.macroDepth++
+	// (counted for the rendering, not for ctx - the context of the macro tag, in which
+	// the calls of other macros are not seen)
+	nesting := ctx.nested()
+	nesting.calls++
 	defer func() {
-		ctx.macroDepth--
+		nesting.calls--
 	}()
 
-	if ctx.macroDepth > maxMacroDepth {
+	if nesting.calls > maxMacroDepth {
 		return nil, ctx.Error(fmt.Sprintf("maximum recursive macro call depth reached (max is %v)", maxMacroDepth), node.position)
 	}
 
